@@ -10,6 +10,7 @@
 //	YFROM(            YieldFrom(               ʏ.From(
 //	RETNIL            return nil               return
 //	OVER<<x>>OVER     x                        (x).All()
+//	RETX<<e>>RETX     return e                 _ = (e); return
 //	§                 program prefix           program prefix
 package render
 
@@ -118,6 +119,11 @@ func Co(neutral, prefix string, st Style) string {
 		case strings.HasPrefix(s[i:], "RETNIL"):
 			b.WriteString("return nil")
 			i += 6
+		case strings.HasPrefix(s[i:], "RETX<<"):
+			b.WriteString("return ")
+			i += 6
+		case strings.HasPrefix(s[i:], ">>RETX"):
+			i += 6
 		case strings.HasPrefix(s[i:], "OVER<<"):
 			i += 6
 		case strings.HasPrefix(s[i:], ">>OVER"):
@@ -161,6 +167,13 @@ func Ref(neutral, prefix string) string {
 			i += 6
 		case strings.HasPrefix(s[i:], "RETNIL"):
 			b.WriteString("return")
+			i += 6
+		case strings.HasPrefix(s[i:], "RETX<<"):
+			// `return <non-nil expr>` in a generator: the expression is evaluated for its effects, then the generator ends
+			b.WriteString("_ = (")
+			i += 6
+		case strings.HasPrefix(s[i:], ">>RETX"):
+			b.WriteString("); return")
 			i += 6
 		case strings.HasPrefix(s[i:], "OVER<<"):
 			b.WriteString("(")
